@@ -591,7 +591,7 @@ func hashStr(s string) uint64 {
 // ---------------- (c) hostile replies ----------------
 
 var hostileKinds = []string{"good", "codec0-body", "unknown-codec", "undecodable", "wrong-seq", "negative-seq", "dup-one-write", "dup-delayed", "truncated", "status", "oversize",
-	"call-type-same-seq", "unregistered-filter", "empty-body", "two-different-replies"}
+	"call-type-same-seq", "unregistered-filter", "empty-body", "two-different-replies", "status-malformed", "status-malformed-nocodec"}
 
 func runHostile(e *env, kind, resKind string, idx int) {
 	p := e.p
@@ -694,6 +694,22 @@ func runHostile(e *env, kind, resKind string, idx int) {
 		writes = append(writes, b)
 	case "empty-body":
 		writes = append(writes, pack(mk(seq, codec.ID_JSON, "", "")))
+	case "status-malformed", "status-malformed-nocodec":
+		// an error reply addressed to the call whose status document is not what the protocol expects
+		// (a gateway's HTML error page, truncated JSON); only the HTTP-style protocol carries the status as a separate document
+		if p.Name == "http" {
+			bodies := []string{"<html><body>502 Bad Gateway</body></html>", `{"code":500,"msg":"trunc`, "\x1f\x8b\x08garbage", "[]", "null"}
+			body := bodies[(idx*3+len(resKind))%len(bodies)]
+			ct := "Content-Type: application/json;charset=utf-8\r\n"
+			if kind == "status-malformed-nocodec" {
+				ct = ""
+			}
+			writes = append(writes, []byte(fmt.Sprintf("HTTP/1.1 299 Business Error\r\n%sContent-Length: %d\r\nX-Seq: %d\r\nX-Mtype: 2\r\n\r\n%s", ct, len(body), seq, body)))
+			desc["status_document"] = body
+		} else {
+			kind = "good"
+			writes = append(writes, pack(good))
+		}
 	}
 	for _, w := range writes {
 		if w != nil {
@@ -706,6 +722,14 @@ func runHostile(e *env, kind, resKind string, idx int) {
 		settle()
 	}
 	var vs []viol
+	// a complete frame of type REPLY addressed to the pending call has arrived: whatever its content, the call is complete
+	// now (with the reply or an error), with the connection kept or dropped - no further event is needed
+	switch kind {
+	case "codec0-body", "unknown-codec", "undecodable", "dup-one-write", "dup-delayed", "two-different-replies", "status", "empty-body", "status-malformed", "status-malformed-nocodec":
+		if !(isDone(t.issued) && isDone(t.cmd.Done())) {
+			vs = append(vs, viol{"reply-arrived-call-incomplete", fmt.Sprintf("a complete reply frame addressed to the call was delivered (%s), the process is quiescent, the call is still incomplete", kind)})
+		}
+	}
 	// a well-formed reply must already have completed the call (no further event needed)
 	if kind == "good" && !(isDone(t.issued) && isDone(t.cmd.Done())) {
 		vs = append(vs, viol{"reply-arrived-call-incomplete", "a well-formed reply was delivered, the process is quiescent, the call is still incomplete"})
@@ -777,7 +801,7 @@ func main() {
 	bed.Init("OFF")
 	gates.Install()
 
-	names := []string{"raw", "json", "pb"}
+	names := []string{"raw", "json", "pb", "http"} // http: hostile replies only in the quick tier
 	delaySeeds := []int64{0}
 	nHostile := 1
 	nChaos := 40
@@ -818,7 +842,7 @@ func main() {
 			for _, kind := range hostileKinds {
 				for _, rk := range []string{"struct", "bytes", "nil"} {
 					if mine() {
-						if p.Struct || p.HTTP {
+						if p.Struct {
 							continue
 						}
 						runHostile(e, kind, rk, k)
